@@ -21,12 +21,33 @@ def main():
 			return _rc(case)
 		except Exception as e:
 			return {'ok': False, 'expected': 'no unexpected exception', 'actual': 'raised ' + ''.join(traceback.format_exception_only(type(e), e)).strip()[:500]}
-	mod.run_case = safe_run_case
+	recorded = []
+
+	def recording_run_case(case):
+		r = safe_run_case(case)
+		if req.get('op') == 'bounded' and isinstance(r, dict) and r.get('ok') is True and len(recorded) < 4000:
+			recorded.append(case)
+		return r
+	mod.run_case = recording_run_case
 	try:
 		if req['op'] == 'case':
 			res = mod.run_case(req['case'])
 		elif req['op'] == 'bounded':
 			res = mod.bounded(req.get('tier', 'quick'), int(req.get('seed', 0)))
+			# history amplifier: cases that passed are run AGAIN at the end of the process, after everything else the run did
+			# (other databases, parameters, failing calls): a result that now differs means state leaked between calls
+			if isinstance(res, dict) and not res.get('failures') and recorded:
+				import random as _r
+				rr = _r.Random(12345)
+				again = recorded[:10] + rr.sample(recorded, min(40, len(recorded)))
+				mod.run_case = safe_run_case
+				for c in again[::-1]:
+					r2 = safe_run_case(c)
+					if not (isinstance(r2, dict) and r2.get('ok') is True):
+						res.setdefault('failures', []).append({'case': c, 'expected': 'same (passing) result as the first time this case ran in this process',
+						                                       'actual': r2.get('actual') if isinstance(r2, dict) else r2, 'class': 'history-rerun'})
+						break
+				res['history_reruns'] = len(again)
 		elif req['op'] == 'search':
 			res = mod.search(req)
 		else:
